@@ -201,6 +201,33 @@ def user_identifiers(source: str) -> dict[str, str]:
 	return kinds
 
 
+def structural_peers(source: str) -> dict[str, list[str]]:
+	"""name -> the identifiers it is structurally tied to: a nested class / a method -> the enclosing class; an enum member ->
+	the members declared before it (else the other members). Used to build new names as prefix + peer / peer + suffix."""
+	tree = ast.parse(source)
+	out: dict[str, list[str]] = {}
+
+	def visit(node: ast.AST, outer: str | None) -> None:
+		for child in ast.iter_child_nodes(node):
+			if isinstance(child, ast.ClassDef):
+				if outer is not None:
+					out.setdefault(child.name, []).append(outer)
+				if any(isinstance(b, ast.Name) and b.id == 'Enum' for b in child.bases):
+					members = [t.id for st in child.body if isinstance(st, ast.Assign) for t in st.targets if isinstance(t, ast.Name)]
+					for i, m in enumerate(members):
+						out.setdefault(m, []).extend(members[:i] or [x for x in members if x != m])
+				visit(child, child.name)
+			elif isinstance(child, (ast.FunctionDef, ast.AsyncFunctionDef)):
+				if outer is not None and isinstance(node, ast.ClassDef):
+					out.setdefault(child.name, []).append(outer)
+				visit(child, None)
+			else:
+				visit(child, outer)
+
+	visit(tree, None)
+	return out
+
+
 def data_string_words(source: str) -> set[str]:
 	"""Identifier-like words inside comments and inside string literals that are not forward-reference annotations. The
 	source-side renaming leaves them alone, the output-side rewriting could not — so they are excluded from a renaming's domain."""
@@ -345,7 +372,7 @@ PEER_KINDS = {'class': ('class', 'nested-class'), 'nested-class': ('class', 'nes
 
 
 def make_renaming(rng: random.Random, domain: dict[str, str], all_identifiers: set[str], reserved: Reserved, how_many: int | None = None,
-		related: bool = False) -> dict[str, str]:
+		related: bool = False, ties: dict[str, list[str]] | None = None) -> dict[str, str]:
 	"""An injective renaming of (a subset of) the domain into fresh names: not reserved, same underscore class, different
 	from every identifier that occurs in the program (renamed or not) and from each other. `related`: every new name is built
 	from another identifier of the same kind (prefix + existing, existing + suffix), preferring classes / enum members."""
@@ -354,8 +381,10 @@ def make_renaming(rng: random.Random, domain: dict[str, str], all_identifiers: s
 		return {}
 	k = how_many if how_many is not None else rng.choice([1, 1, 2, 3, len(names), len(names), max(1, len(names) // 2)])
 	if related:
+		tied = [n for n in names if domain[n] in ('nested-class', 'enum-member') and (ties or {}).get(n)]
 		structural = [n for n in names if domain[n] in ('nested-class', 'enum-member', 'class', 'method')]
-		pick_from = structural if structural and rng.random() < 0.8 else names
+		groups = [g for g in ([n for n in tied if domain[n] == 'nested-class'], [n for n in tied if domain[n] == 'enum-member']) if g]
+		pick_from = rng.choice(groups) if groups and rng.random() < 0.7 else (structural if structural and rng.random() < 0.8 else names)
 		chosen = rng.sample(pick_from, min(k, len(pick_from)))
 	else:
 		chosen = rng.sample(names, min(k, len(names)))
@@ -368,6 +397,8 @@ def make_renaming(rng: random.Random, domain: dict[str, str], all_identifiers: s
 	for n in chosen:
 		for _ in range(40):
 			peers = sorted({p for kd in PEER_KINDS.get(domain[n], (domain[n],)) for p in by_kind.get(kd, [])})
+			if related and (ties or {}).get(n) and rng.random() < 0.75:
+				peers = list(ties[n])   # the enclosing class / the enum members declared earlier
 			cand = rng.choice(fresh_candidates(rng, n, idents, peers, related_only=related))
 			if cand not in taken and reserved.fresh_ok(cand, n):
 				mapping[n] = cand
@@ -642,7 +673,22 @@ class NestGen:
 					name = self.names.var(scope_names)
 					local_pool.append(name)
 				val = self.expr(ty, env, 0, me)
-				out.append(f'{pad}{name}: {ty} = {val}' if r.random() < 0.5 or ty in ('list[int]', 'float') else f'{pad}{name} = {val}')
+				if ty in inners:
+					# a nested class used through INFERRED types: the emitter has to spell `Outer::Inner` itself
+					if r.random() < 0.8:
+						out.append(f'{pad}{name} = {val}')
+						self.count('stmt:declare-inferred-nested-class')
+					else:
+						out.append(f'{pad}{name}: {ty} = {val}')
+					if r.random() < 0.5:
+						lst = self.names.var(scope_names)
+						local_pool.append(lst)
+						out.append(f'{pad}{lst} = [{name}]')
+						env.append((lst, f'list-of:{ty}'))
+						declared_here.add(lst)
+						self.count('stmt:list-of-nested-class')
+				else:
+					out.append(f'{pad}{name}: {ty} = {val}' if r.random() < 0.5 or ty in ('list[int]', 'float') else f'{pad}{name} = {val}')
 				env.append((name, ty))
 				declared_here.add(name)
 				self.count('stmt:declare')
@@ -832,7 +878,7 @@ class NestGen:
 			self.classes.append(cls)
 		else:
 			nested_in.inner = cls
-		if nested_in is None and r.random() < 0.3:
+		if nested_in is None and r.random() < 0.45:
 			inner, ilines = self.gen_class(None, cls)
 			lines += ilines
 		if twin is not None and nested_in is None and r.random() < 0.8:
